@@ -263,7 +263,10 @@ def check_expr(sub, st, E, deep, hashes):
             except Exception as e:
                 nref += 1
                 sub.count('refused')
-                sub.count('refused_by_exception:' + type(e).__name__)
+                # a failing SQLite UDF surfaces as TypeError or as OperationalError depending on Pony's thread-local
+                # exception state (order dependent): one bucket keeps the counters seed-invariant
+                en = type(e).__name__
+                sub.count('refused_by_exception:' + ('TypeError/OperationalError' if en in ('TypeError', 'OperationalError') else en))
                 sub.count('refused_at:' + pos)
                 continue
             nok += 1
